@@ -55,6 +55,23 @@ PROPS = {
                      "the completeness direction (a program satisfying all rules is accepted) needs the whole pipeline",
                      "the join with C20 (every element is visited) is stated, not mechanised: per-element dispatch contracts only"],
     ),
+    "C08": dict(
+        units=["schema_encoders", "codec_wire"],
+        kani_quick=["k_encode_varint_contract", "k_encode_size_contract"],
+        kani_thorough=["kb_vec_target_ops"],
+        claim="All 21 hand-written EncodeInto impls of slicec/src/definition_types.rs (real text, macro-expanded) are verified to append exactly the "
+              "encoding the SHIPPED schema prescribes - the oracle enc_<T> is generated on every run from slice/Compiler/*.slice (field order, bit-sequence "
+              "byte for optional fields, varint32? tags, enum discriminant = position in the schema, tagged-field end marker); Arguments == "
+              "Dictionary<string,string> in the order written; encode_generate_code_request returns exactly \"generateCode\" ++ Sequence(sources) ++ "
+              "Sequence(references) with the source/reference split by is_source and order preserved; GeneratedFile / DiagnosticLevel decoders (codec_wire).",
+        trusted=CODEC_TRUSTED + ["specs/schema_gen.py (the ~200-line schema reader/oracle generator; stops with exit 2 on any construct outside the subset the three files use, and on any field-name/count mismatch with definition_types.rs)",
+                 "R12 regions: the unsafe `*<*const _>::from(self).cast::<u8>()` discriminant read = the `= N` written on the #[repr(u8)] enum (RFC 2195 layout)",
+                 "VecOutputTarget's five operations: trait contract ASSUMED here (unsafe MaybeUninit code; bounded Kani stand-in kb_vec_target_ops)",
+                 "slice_file_converter.rs (AST -> schema types): `definition_types::SliceFile::from` is an uninterpreted pure function"],
+        not_claimed=["that the decoded content EQUALS the compiled program for named entities (slice_file_converter.rs: closures over .map().collect(); the @returns-documentation defect named in the property is there)",
+                     "anonymous-type numeric id discipline (get_type_id_for / convert_type_ref group): not under contract in this round",
+                     "decodability lemma dec(enc(v)) for the schema types (follows the C10 pattern; not written)", "Diagnostic::decode_from (closure capturing &mut decoder)"],
+    ),
     "C09": dict(
         units=["locations"],
         claim="The cursor arithmetic of the preprocessor lexer and of the Slice lexer (advance_buffer, advance_to_end_of_line, skip_*; real text) "
@@ -178,6 +195,10 @@ NOT_APPLICABLE = {
 }
 
 MANIFEST_TEXT = {
+    "C08": dict(
+        level="Proof (Verus) of ENCODER CONFORMANCE AND REQUEST FRAMING: every EncodeInto impl of definition_types.rs appends exactly enc_<T>(value), where enc_<T> is generated on every run from the schema shipped in slice/Compiler (so a field reordered, a forgotten end marker, a wrong discriminant or bit-sequence fails a named obligation); encode_generate_code_request's result (through the growable target, tied by a prophecy to the returned Vec) is name ++ sources ++ references with the split and orders preserved. The AST->schema conversion of named entities is trusted, so 'decoded content equals the compiled program' is NOT claimed.",
+        design_ref="DESIGN.md section 7, C08", technique="generated oracle (schema -> Verus spec fns) + Verus trait contracts on macro-expanded real impls + prophecy for the borrowed output buffer",
+        note="Partial claim (stated). Assumed: schema_gen.py, repr(u8) layout, VecOutputTarget operations, the converter."),
     "C09": dict(
         level="Proof (Verus) of the CURSOR ARITHMETIC only: for the preprocessor lexer and the Slice lexer, every cursor-moving function preserves the representation invariant `cursor == advance_all(start location, characters consumed so far)` (columns count characters, rows/cols from 1, newline resets the column) and `position == UTF-8 byte length of the consumed characters`; no overflow; termination. Span tightness (grammar @L/@R placement), span algebra and snippet rendering are not claimed.",
         design_ref="DESIGN.md section 7, C09", technique="Verus representation invariant over the lexer state + ghost `consumed` view; recursive spec of location advancement",
